@@ -2,9 +2,10 @@
 modified; integrators return fresh arrays.  (spec/Memo.tla, spec/Trace_Memo.tla, harness/c20_worker.py)
 
 Behaviour replay, spec -> code:
-  1. TLC model-checks Memo.tla (every history of <= 3 calls over the memo-relevant bases; thorough: also <= 4 calls
-     over the core bases and every 2-call history of the full alphabet in every layout) and refutes the eleven
-     defective design variants (MemoMC_bug_*.cfg): the refinement Memo => MemoFree is not vacuous.
+  1. TLC model-checks Memo.tla (quick: every history of <= 3 calls over 21 core bases and of <= 2 calls over all
+     memo-relevant bases; thorough: <= 3 calls over all memo-relevant bases, <= 4 calls over the core bases and every
+     2-call history of the full alphabet in every layout) and refutes the defective design variants
+     (MemoMC_bug_*.cfg: five in quick, all eleven in thorough): the refinement Memo => MemoFree is not vacuous.
   2. Histories are taken from TLC:
        pair   - the state graph of all 2-call histories (-dump dot,actionlabels) gives the (writer, reader, table)
                 triples of calls that share a memo table with overlapping keys (res.pairs of the second state);
@@ -97,14 +98,17 @@ def simulate(cfg, num, seed):
     return r, hs[:num]
 
 
-def refute_bug_designs(workers=2):
+QUICK_BUGS = ['dbetakey', 'godaddr', 'raw45', 'kernelstate', 'hashorder']     # quick: one per mechanism; thorough: all
+
+
+def refute_bug_designs(workers=2, names=None):
     """Each defective design variant of Memo.tla must be refuted by TLC with the expected invariant."""
     def one(name):
         r = common.tlc('Memo', 'MemoMC_bug_%s.cfg' % name, workers=workers, heap='2g')
         return name, r
     info = []
     with ThreadPoolExecutor(max_workers=4) as ex:
-        for name, r in ex.map(one, sorted(BUG_CFGS)):
+        for name, r in ex.map(one, sorted(names or BUG_CFGS)):
             want = 'Invariant %s is violated' % BUG_CFGS[name]
             if r.ok or want not in (r.violation or ''):
                 raise common.MachineryError('the defective design MemoMC_bug_%s.cfg was not refuted as expected (%s): the model is too weak' % (name, r.violation))
@@ -166,7 +170,7 @@ def build_records(hists, replays, fresh, fresh_seeds, hashseed):
     return groups
 
 
-def validate(groups, parallel=8):
+def validate(groups, parallel=6):
     recs = [r for g in groups for r in g]
     return common.validate_trace('Trace_Memo', recs, parallel=parallel, groups=groups, heap='4g')
 
@@ -239,7 +243,7 @@ def binding_demo(groups, verdicts, limit=120):
             break
     if not muts:
         return {'mutated_histories': 0}
-    mv, _ = validate(muts, parallel=4)
+    mv, _ = validate(muts, parallel=3)
     missed = [(rid, c) for rid, c in want.items() if c not in mv.get(rid, [])]
     if missed:
         raise common.MachineryError('binding demonstration failed: corrupted observations not rejected by Trace_Memo with the owning clause: %s' % missed[:5])
@@ -289,8 +293,8 @@ def observed_pairs(groups):
                 pairs.add((owner['demeslog'], r['base'], 'demeslog'))
             if r['base'].startswith('demes_output'):
                 owner['demeslog'] = r['base']
-            elif r['site'].startswith(('Integration.', 'PhiManip.', 'Godambe.', 'Inference._object_func', 'Inference.optimize_grid',
-                                        'LowPass.make_low_pass_func', 'Demes.SFS', 'Spectrum.from_demes')) \
+            elif r['site'].startswith(('Integration.', 'PhiManip.', 'Godambe.', 'Inference._object_func', 'Inference.optimize', 'Inference.opt',
+                                        'Numerics.make_extrap_func', 'LowPass.make_low_pass_func', 'Demes.SFS', 'Spectrum.from_demes')) \
                     and not (r['site'].startswith('Godambe.') and not r['tab']['godambe']['miss']):
                 owner['demeslog'] = None
     return pairs
@@ -421,7 +425,7 @@ def _run(ctx, tmpd, t0):
     quick = ctx.quick
     replay_seeds = [0, 1] if quick else [0, 1, 2]
     fresh_seeds = [11, 13] if quick else [11, 12, 13]     # (both string-hash order classes of the low-pass population labels, see c20_worker)
-    par = 6
+    par = 8
     stats = {'states': 0, 'transitions': 0}
     timing = {}
     mc_info, viol = [], []
@@ -440,12 +444,13 @@ def _run(ctx, tmpd, t0):
                 try:
                     tm = time.time()
                     res = []
-                    # quick: depth 3 over the memo-relevant bases (the 1-call layout graph is run, and dumped, by the generator);
-                    # thorough adds depth 4 over the core bases and all 2-call histories of the full alphabet in all layouts
-                    for cfg in ['MemoMC_quick.cfg'] + ([] if ctx.quick else ['MemoMC_thorough.cfg', 'MemoMC_layout_thorough.cfg']):
+                    # quick: depth 3 over 21 core bases (depth 2 over ALL memo-relevant bases and the 1-call layout graph are run, and
+                    # dumped, by the generator); thorough: depth 3 over all memo-relevant bases, depth 4 over the core bases and all
+                    # 2-call histories of the full alphabet in all layouts
+                    for cfg in (['MemoMC_quick.cfg'] if ctx.quick else ['MemoMC_memo3_thorough.cfg', 'MemoMC_thorough.cfg', 'MemoMC_layout_thorough.cfg']):
                         res.append((cfg,) + common.run_mc('Memo', cfg, workers=_tlc_workers(ctx), heap='8g'))
                     mc_out['runs'] = res
-                    mc_out['bugs'] = refute_bug_designs()
+                    mc_out['bugs'] = refute_bug_designs(names=QUICK_BUGS if ctx.quick else None)
                     mc_out['wall'] = round(time.time() - tm, 1)
                 except BaseException as ex:      # re-raised in the main thread
                     mc_out['error'] = ex
